@@ -14,13 +14,19 @@
        each RESOLVED wire -- a top-level wire, a wire into the system composed with the wire from
        its external port, a wire to an exposed port composed with the wire out of the system, an
        inner wire ([C03_resolved_wiring]) -- carries the latest report of its source device.
-   PARTIAL: (5) is proved for one level of nesting without interrupts; deeper nestings, sibling
-   systems and interrupts are decided per run by the Coq-defined oracle [latest_ok]
+   (6) through the boundaries of a nesting of ANY depth, in both directions
+       ([C03_through_any_nesting]): for every configuration that [inline_all] flattens step by step
+       (system simulations beside and inside one another, decided by [scope_all]), in every state a
+       run of the master reaches with the NESTED configuration each wire of the flat result -- every
+       chain of wires through external and exposed ports resolved to the device output that drives
+       it -- carries the latest report of its source device.
+   PARTIAL: (5) and (6) are about runs without interrupts and nestings without wires straight from an
+   external to an exposed port; those are decided per run by the Coq-defined oracle [latest_ok]
    (Oracle/SimOracle.v, code 81) on the flattened wiring of every generated nesting.
    Property theorems only. *)
 From TV Require Import Base Model.Wiring Model.Ticker Model.Component Model.Sim Model.SimTime Model.Inline
   Proofs.WiringP Proofs.TickerP Proofs.FlattenP Proofs.SimP Proofs.LatestP Proofs.EqvP Proofs.ParDevP Proofs.InlineP Proofs.InlineLoopP
-  Oracle.SimCheck Proofs.InlineScopeP Proofs.InlineLatestP Proofs.FrameP Proofs.EqvCongP.
+  Oracle.SimCheck Oracle.SimOracle Proofs.InlineScopeP Proofs.InlineLatestP Proofs.FrameP Proofs.EqvCongP Proofs.InlineAllP Proofs.InlineAllLatestP.
 Open Scope Z_scope.
 
 Theorem C03_route_exact : forall (conns : list conn) src (ch : list (port * Z)) ic ip v,
@@ -129,6 +135,44 @@ Example C03_boundary_example :
   let s := fst (fst (sim_run cfg (table_dev tab) 10 8 0 100000)) in
   (lookup 1%positive (d_last (dcs s 3%positive)) <> None /\ lookup 1%positive (d_last (dcs s 5%positive)) <> None).
 Proof. vm_compute. repeat split; discriminate. Qed.
+
+(* (6) any depth: the flat result of the iterated inlining has no system simulation left, its wires are the
+   resolved wires of the whole nesting, and the state of the NESTED run has every one of them carrying
+   the latest report of its source *)
+Theorem C03_through_any_nesting : forall cfg k (devf : devfun) f n initial horizon,
+  scope_all k (S f) [] cfg = true ->
+  flat_wfb (level_of (inline_all k cfg) top) = true ->
+  (forall d k t i, NoDup (keys (fst (devf d k t i)))) ->
+  (forall d k t i i', NoDup (keys i) -> NoDup (keys i') -> eqv i i' -> devf d k t i = devf d k t i') ->
+  let s := fst (fst (sim_run cfg devf n (S f) initial horizon)) in
+  forall u p d q, In (u, p, d, q) (l_conns (level_of (inline_all k cfg) top)) ->
+  forall v, lookup p (d_last (dcs s u)) = Some v -> lookup q (d_inputs (dcs s d)) = Some v.
+Proof.
+  intros cfg k devf f n initial horizon Hs Hwf Hnd Hext s u p d q Hk.
+  exact (nested_latest_any_depth devf Hnd Hext f n initial horizon k cfg Hs (flat_wfb_sound _ Hwf) u p d q Hk).
+Qed.
+
+(* the premises hold somewhere: source 3 -> system 4 (devices 5 -> 6) -> system 7 (device 9 -> system 10 (device 11))
+   -> sink 8, three levels deep; the flat result is the Coq flattening; values have crossed every boundary *)
+Example C03_any_nesting_example :
+  let cfg : config :=
+    [(1%positive, {| l_order := [(3%positive, KDev); (4%positive, KSys 2%positive); (7%positive, KSys 3%positive); (8%positive, KDev)];
+                     l_conns := [(3, 1, 4, 1); (4, 1, 7, 1); (7, 1, 8, 1); (3, 2, 8, 2)]%positive |});
+     (2%positive, {| l_order := [(5%positive, KDev); (6%positive, KDev)];
+                     l_conns := [(1, 1, 5, 1); (5, 1, 6, 1); (6, 1, 2, 1)]%positive |});
+     (3%positive, {| l_order := [(9%positive, KDev); (10%positive, KSys 4%positive)];
+                     l_conns := [(1, 1, 9, 1); (9, 1, 10, 1); (10, 1, 2, 1)]%positive |});
+     (4%positive, {| l_order := [(11%positive, KDev)]; l_conns := [(1, 1, 11, 1); (11, 1, 2, 1)]%positive |})] in
+  let tab : dev_table := [(3%positive, (11, 300, 1)); (5%positive, (12, 700, 1)); (6%positive, (13, 500, 4)); (8%positive, (14, 400, 0));
+                          (9%positive, (15, 600, 1)); (11%positive, (16, 900, 4))] in
+  scope_all 5 8 [] cfg = true /\
+  flat_wfb (level_of (inline_all 5 cfg) top) = true /\
+  conns_set_eqb (flat_conns cfg) (l_conns (level_of (inline_all 5 cfg) top)) = true /\
+  In (6, 1, 9, 1)%positive (l_conns (level_of (inline_all 5 cfg) top)) /\
+  In (11, 1, 8, 1)%positive (l_conns (level_of (inline_all 5 cfg) top)) /\
+  let s := fst (fst (sim_run cfg (table_dev tab) 10 8 0 100000)) in
+  (lookup 1%positive (d_last (dcs s 6%positive)) <> None /\ lookup 1%positive (d_last (dcs s 11%positive)) <> None).
+Proof. vm_compute. repeat split; try discriminate; try reflexivity; intuition. Qed.
 
 (* values are dictionaries: nothing the whole-simulation model computes depends on the order in
    which an association list holds its entries.  Two nested ticks (any configuration with
